@@ -332,6 +332,25 @@ func (p *P[C]) eval(c C, via string) error {
 	return err
 }
 
+// FuzzCheck is called from native fuzz targets: it runs the same oracle as Eval without touching the
+// statistics (fuzz workers are separate processes) and fails the target with a line run.py can turn
+// into a standard replay file.
+func FuzzCheck[C any](t *testing.T, p *P[C], c C) {
+	err := p.call(c)
+	if err == nil {
+		return
+	}
+	if p.Known != nil {
+		if sig := p.Known(c, err); sig != "" {
+			if _, open := knownOpen[sig]; open {
+				return
+			}
+		}
+	}
+	raw, _ := json.Marshal(c)
+	t.Fatalf("VERIF-FUZZ-FAIL prop=%s case=%s err=%v", p.Name, string(raw), err)
+}
+
 // ---------------------------------------------------------------------------------------------
 // rapid driver
 
